@@ -26,7 +26,16 @@ def sh(cmd, cwd, env=None, timeout=900):
 
 def main():
     wt, sid, props, needs = sys.argv[1], sys.argv[2], sys.argv[3].split(","), sys.argv[4]
+    patchfile = sys.argv[5] if len(sys.argv) > 5 else None
+    demo = sys.argv[6] if len(sys.argv) > 6 else "demo.py"
     env = {"PYTHONPATH": wt, "PYTHONDONTWRITEBYTECODE": "1"}
+    if patchfile:
+        # the worktree must be clean; apply the given patch for the duration of the confirmation
+        subprocess.run("git checkout -- mysensors README.md", cwd=wt, shell=True)
+        r = subprocess.run(f"git apply {patchfile}", cwd=wt, shell=True, capture_output=True, text=True)
+        if r.returncode != 0:
+            print("patch does not apply:", r.stderr[:300])
+            return 1
     rc, diff = subprocess.run("git diff -- mysensors README.md", cwd=wt, shell=True, capture_output=True, text=True).returncode, None
     diff = subprocess.run("git diff -- mysensors README.md", cwd=wt, shell=True, capture_output=True, text=True).stdout
     if not diff.strip():
@@ -35,7 +44,7 @@ def main():
     ran = []
     rc_t, out_t = sh("/venv/bin/python -m pytest -q -p no:cacheprovider --timeout=600 tests", wt, env)
     ran.append({"cmd": "pytest tests (with change)", "rc": rc_t, "tail": out_t.strip().splitlines()[-1:]})
-    rc_d1, out_d1 = sh("/venv/bin/python demo.py", wt, env, timeout=300)
+    rc_d1, out_d1 = sh(f"/venv/bin/python {demo}", wt, env, timeout=300)
     ran.append({"cmd": "demo.py (with change)", "rc": rc_d1, "tail": out_d1.strip().splitlines()[-3:]})
     # NOT git stash: the stash is shared between all worktrees of one repository
     pfile = os.path.join(wt, ".ingest.patch")
@@ -46,7 +55,7 @@ def main():
         print("cannot reverse the change:", out_r)
         return 1
     try:
-        rc_d0, out_d0 = sh("/venv/bin/python demo.py", wt, env, timeout=300)
+        rc_d0, out_d0 = sh(f"/venv/bin/python {demo}", wt, env, timeout=300)
     finally:
         sh(f"git apply {pfile}", wt)
         os.remove(pfile)
@@ -63,9 +72,12 @@ def main():
     os.makedirs(dest, exist_ok=True)
     with open(os.path.join(dest, "patch.diff"), "w") as fh:
         fh.write(diff)
-    shutil.copy(os.path.join(wt, "demo.py"), os.path.join(dest, "demo.py"))
-    if os.path.exists(os.path.join(wt, "NOTES.md")):
-        shutil.copy(os.path.join(wt, "NOTES.md"), os.path.join(dest, "NOTES.md"))
+    shutil.copy(os.path.join(wt, demo), os.path.join(dest, "demo.py"))
+    notes = os.path.join(wt, "NOTES.md" if demo == "demo.py" else demo.replace("demo", "NOTES").replace(".py", ".md"))
+    if os.path.exists(notes):
+        shutil.copy(notes, os.path.join(dest, "NOTES.md"))
+    if patchfile:
+        subprocess.run("git checkout -- mysensors README.md", cwd=wt, shell=True)
     meta = {"breaks": props, "needs_to_manifest": needs, "base_commit": head_wt, "repo_head_when_confirmed": head_repo,
             "confirmed": ran, "author": "independent sub-agent given only the property text and a scratch worktree", "expect": "caught"}
     with open(os.path.join(dest, "meta.json"), "w") as fh:
